@@ -39,6 +39,11 @@
        respond after reset; exiting".
    P1  help --sleep "sleeping for N seconds between seed requests".
    D5  help --duration "Run script for N minutes; zero or negative for infinite runtime (default)".
+       A run that ends with an error although the ECU gave no reason for it did not run for N minutes; the
+       reasons the code names: "could not change to session", "ECU did not respond after reset", "ECU persistently
+       lost session", "Error while requesting seed" / "Error while sending key" (anything but a timeout); a
+       negative or missing answer to a seed request / key is NOT a reason ("ECU replied with an error",
+       "Timeout while requesting seed", "Timeout while sending key": the loop continues).
    L0  the run ends after an interrupt (entry_point: "asyncio.run() delivers Ctrl-C as a cancellation of the
        main task").
 
@@ -87,7 +92,7 @@ A0(C) ==
    entered |-> FALSE, readSince |-> FALSE, lastRead |-> -1, exempt |-> FALSE,
    cnt |-> 0, unans |-> 0, fail |-> FALSE, negSince |-> FALSE, pend |-> <<>>,
    sawReset |-> FALSE, needDsc |-> FALSE, alive |-> TRUE,
-   lastAnsT |-> -1, afterSeedPos |-> FALSE, firstSeedT |-> -1, nseed |-> 0, npos |-> 0, unspec |-> 0]
+   lastAnsT |-> -1, afterSeedPos |-> FALSE, trouble |-> FALSE, firstSeedT |-> -1, nseed |-> 0, npos |-> 0, unspec |-> 0]
 
 \* ---------------------------------------------------------------- clauses, per event
 KeyLenAllowed(C, a, n) ==
@@ -189,11 +194,20 @@ UpdOther(C, a, e) ==
               !.unspec = IF PosAns(e) THEN @ ELSE @ + 1]
   ELSE a
 
+\* something a run may end with an error for: a request other than a seed request / key that was refused or not
+\* answered, an answer that is no answer to the request, a session read reporting another session
+Trouble(C, e) ==
+  IF IsSA(e) THEN e.has /\ ~NegAns(e) /\ ~(PosAns(e) /\ Len(e.a) >= 2 /\ e.a[2] = Sub(e))
+  ELSE IF e.q[1] = 62 /\ Len(e.q) >= 2 /\ e.q[2] >= 128 THEN FALSE
+  ELSE \/ ~e.has \/ NegAns(e) \/ ~PosAns(e)
+       \/ (IsSessRead(e) /\ Len(e.a) = 4 /\ e.a[4] # C.session)
+
 Step(C, a, e) ==
   IF a.bad # "" THEN a
   ELSE LET lab == Clause(C, a, e)
            b == IF IsSeedReq(e) THEN UpdSeed(C, a, e) ELSE IF IsKeyReq(e) THEN UpdKey(C, a, e) ELSE UpdOther(C, a, e)
-       IN [b EXCEPT !.bad = lab, !.alive = IF IsReset(e) THEN FALSE ELSE (a.alive \/ e.has)]
+       IN [b EXCEPT !.bad = lab, !.alive = IF IsReset(e) THEN FALSE ELSE (a.alive \/ e.has),
+                    !.trouble = @ \/ Trouble(C, e)]
 
 Acc(C, ev) == FoldLeft(LAMBDA a, e : Step(C, a, e), A0(C), ev)
 
@@ -214,6 +228,7 @@ Final(C, a, file, end, tend) ==
           ELSE "D1/file-differs-from-received-seeds")
   ELSE IF C.dur = 0 /\ end = "done" /\ ~EndedForAReason(a) THEN "D5/infinite-run-ended-by-itself"
   ELSE IF C.dur > 0 /\ end = "done" /\ ~EndedForAReason(a) /\ tend < C.dur THEN "D5/run-ended-before-duration"
+  ELSE IF end \in {"exit", "exc"} /\ ~a.trouble THEN "D5/run-aborted-although-ecu-gave-no-reason"
   ELSE "ok"
 
 Verdict(C, ev, file, end, tend) == Final(C, Acc(C, ev), file, end, tend)
